@@ -1256,3 +1256,161 @@ def _nas_moved(body):
             (S, _SINTER_ANCHOR, "def named_arg_str(args):\n    return %s\n\n\n" % body + _SINTER_ANCHOR))
 T('pkgA_twin_request_core_arg_string_helper_in_another_module', ['C02', 'C03'], *_nas_moved("', '.join([a + '=' + a for a in args])"))
 B('pkgA_request_core_arg_string_helper_in_another_module_positional', ['C02'], 'R02.a', *_nas_moved("', '.join([a for a in args])"))
+
+
+# =================================================================== seeded round f: error paths / boundaries, interface drift
+# ------------------------------------------------------------------ route.BoundRoute.match_path: a returned mapping has every binding of the table
+_MP_OLD = ("        try:\n"
+           "            for conv_name, conv in self.converters.items():\n"
+           "                ret[conv_name] = conv(groups[conv_name])\n"
+           "        except (KeyError, TypeError, ValueError):\n"
+           "            return None\n"
+           "        return ret\n")
+_MP_PER_BINDING = ("        for conv_name, conv in self.converters.items():\n"
+                   "            try:\n"
+                   "                ret[conv_name] = conv(groups[conv_name])\n"
+                   "            except (KeyError, TypeError, ValueError):\n"
+                   "                %s\n"
+                   "        return ret\n")
+T('pkgA_twin_match_path_try_per_binding', ['C01', 'C02'], (R, _MP_OLD, _MP_PER_BINDING % "return None"))
+T('pkgA_twin_match_path_value_converted_then_stored', ['C01', 'C02'],
+  (R, _MP_OLD, "        for conv_name, conv in self.converters.items():\n"
+               "            try:\n"
+               "                value = conv(groups[conv_name])\n"
+               "            except (KeyError, TypeError, ValueError):\n"
+               "                return None\n"
+               "            ret[conv_name] = value\n"
+               "        return ret\n"))
+T('pkgA_twin_match_path_comprehension', ['C01', 'C02'],
+  (R, _MP_OLD, "        try:\n"
+               "            ret = {name: conv(groups[name]) for name, conv in self.converters.items()}\n"
+               "        except (KeyError, TypeError, ValueError):\n"
+               "            return None\n"
+               "        return ret\n"))
+B('pkgA_match_path_failed_binding_skipped', ['C01'], 'R01.a', (R, _MP_OLD, _MP_PER_BINDING % "continue"))
+B('pkgA_match_path_failed_binding_ends_the_loop', ['C01'], 'R01.a', (R, _MP_OLD, _MP_PER_BINDING % "break"))
+B('pkgA_match_path_empty_group_not_stored', ['C01'], 'R01.a',
+  (R, _MP_OLD, "        try:\n"
+               "            for conv_name, conv in self.converters.items():\n"
+               "                if not groups[conv_name]:\n"
+               "                    continue\n"
+               "                ret[conv_name] = conv(groups[conv_name])\n"
+               "        except (KeyError, TypeError, ValueError):\n"
+               "            return None\n"
+               "        return ret\n"))
+B('pkgA_match_path_comprehension_filters_empty_groups', ['C01'], 'R01.a',
+  (R, _MP_OLD, "        try:\n"
+               "            ret = {name: conv(groups[name]) for name, conv in self.converters.items() if groups[name]}\n"
+               "        except (KeyError, TypeError, ValueError):\n"
+               "            return None\n"
+               "        return ret\n"))
+
+# ------------------------------------------------------------------ route.BoundRoute.__init__: the 'url' source is the table the matcher binds from
+_URL_SRC_OLD = "        src_provides_map = {'url': set(self.converters),\n"
+_URL_SRC = "        src_provides_map = {'url': %s,\n"
+_URL_BOTH = {'C01': 'R01.a', 'C02': 'R02.c'}
+T('pkgA_twin_url_source_through_path_args', ['C01', 'C02', 'C04'], (R, _URL_SRC_OLD, _URL_SRC % "set(self.path_args)"))
+T('pkgA_twin_url_source_sorted_local', ['C01', 'C02', 'C04'],
+  (R, _URL_SRC_OLD, "        url_names = sorted(self.converters)\n" + _URL_SRC % "set(url_names)"))
+T('pkgA_twin_url_source_key_comprehension', ['C01', 'C02', 'C04'],
+  (R, _URL_SRC_OLD, _URL_SRC % "{name for name, _conv in self.converters.items()}"))
+T('pkgA_twin_url_source_keys_frozen', ['C01', 'C02', 'C04'], (R, _URL_SRC_OLD, _URL_SRC % "frozenset(self.converters.keys())"))
+B('pkgA_url_source_read_off_the_wrapped_route', ['C01', 'C02'], _URL_BOTH,
+  (R, _URL_SRC_OLD, _URL_SRC % "set(getattr(route, 'path_args', self.converters))"))
+B('pkgA_url_source_second_scan_of_the_pattern', ['C01', 'C02'], _URL_BOTH,
+  (R, _URL_SRC_OLD, _URL_SRC % "set(m.group('name') for m in BINDING.finditer(self.pattern))"))
+B('pkgA_url_source_compiled_from_the_unprefixed_pattern', ['C01', 'C02'], _URL_BOTH,
+  (R, _URL_SRC_OLD, _URL_SRC % "set(_compile_path_pattern(route.pattern, self.slash_mode)[1])"))
+B('pkgA_url_source_filtered', ['C01', 'C02'], _URL_BOTH,
+  (R, _URL_SRC_OLD, _URL_SRC % "set(name for name in self.converters if not name.startswith('_'))"))
+B('pkgA_url_source_path_args_parsed_separately', ['C01', 'C02'], _URL_BOTH,
+  (R, "        self.path_args = self.converters.keys()\n",
+      "        self.path_args = [seg.strip('<>').partition(':')[0] for seg in self.pattern.split('/') if seg.startswith('<')]\n"),
+  (R, _URL_SRC_OLD, _URL_SRC % "set(self.path_args)"))
+
+# ------------------------------------------------------------------ application.Application.__init__: nothing is bound before what binding reads is assigned
+_AI_OLD = ("        self.middlewares = list(middlewares or [])\n"
+           "        check_middlewares(self.middlewares)\n"
+           "        self.render_factory = render_factory\n"
+           "\n"
+           "        self.set_error_handler(error_handler)\n"
+           "\n"
+           "        routes = routes or []\n"
+           "        self.routes = []\n"
+           "        self._null_route = NullRoute().bind(self)\n"
+           "        for entry in routes:\n"
+           "            self.add(entry)\n")
+T('pkgA_twin_application_null_route_bound_before_the_route_list', ['C01', 'C03', 'C04'],
+  (A, _AI_OLD, "        self.middlewares = list(middlewares or [])\n"
+               "        check_middlewares(self.middlewares)\n"
+               "        self.render_factory = render_factory\n"
+               "        self.set_error_handler(error_handler)\n"
+               "        self._null_route = NullRoute().bind(self)\n"
+               "\n"
+               "        self.routes = []\n"
+               "        for entry in routes or []:\n"
+               "            self.add(entry)\n"))
+T('pkgA_twin_application_state_assigned_in_another_order', ['C01', 'C03', 'C04'],
+  (A, _AI_OLD, "        self.render_factory = render_factory\n"
+               "        self.set_error_handler(error_handler)\n"
+               "        self.middlewares = list(middlewares or [])\n"
+               "        check_middlewares(self.middlewares)\n"
+               "\n"
+               "        routes = routes or []\n"
+               "        self.routes = []\n"
+               "        self._null_route = NullRoute().bind(self)\n"
+               "        for entry in routes:\n"
+               "            self.add(entry)\n"))
+T('pkgA_twin_application_middlewares_set_by_a_method', ['C03'],
+  (A, _AI_OLD, _AI_OLD.replace("        self.middlewares = list(middlewares or [])\n        check_middlewares(self.middlewares)\n",
+                               "        self.set_middlewares(middlewares)\n")),
+  (A, "    def set_error_handler(self, error_handler=None):\n",
+      "    def set_middlewares(self, middlewares=None):\n"
+      "        self.middlewares = list(middlewares or [])\n"
+      "        check_middlewares(self.middlewares)\n"
+      "\n"
+      "    def set_error_handler(self, error_handler=None):\n"))
+B('pkgA_application_routes_added_before_the_middlewares_are_set', ['C03'], 'R03.d',
+  (A, _AI_OLD, "        self.render_factory = render_factory\n"
+               "        self.set_error_handler(error_handler)\n"
+               "\n"
+               "        self.routes = []\n"
+               "        for entry in routes or []:\n"
+               "            self.add(entry)\n"
+               "\n"
+               "        self.middlewares = list(middlewares or [])\n"
+               "        check_middlewares(self.middlewares)\n"
+               "        self._null_route = NullRoute().bind(self)\n"))
+B('pkgA_application_fallback_bound_by_a_method_called_too_early', ['C03'], 'R03.d',
+  (A, _AI_OLD, "        self.bind_fallback_route()\n" + _AI_OLD.replace("        self._null_route = NullRoute().bind(self)\n", "")),
+  (A, "    def set_error_handler(self, error_handler=None):\n",
+      "    def bind_fallback_route(self):\n"
+      "        self._null_route = NullRoute().bind(self)\n"
+      "\n"
+      "    def set_error_handler(self, error_handler=None):\n"))
+B('pkgA_application_middlewares_set_by_a_method_called_after_binding', ['C03'], 'R03.d',
+  (A, _AI_OLD, _AI_OLD.replace("        self.middlewares = list(middlewares or [])\n        check_middlewares(self.middlewares)\n", "") +
+      "        self.set_middlewares(middlewares)\n"),
+  (A, "    def set_error_handler(self, error_handler=None):\n",
+      "    def set_middlewares(self, middlewares=None):\n"
+      "        self.middlewares = list(middlewares or [])\n"
+      "        check_middlewares(self.middlewares)\n"
+      "\n"
+      "    def set_error_handler(self, error_handler=None):\n"))
+
+# ------------------------------------------------------------------ route.BoundRoute.__init__: the conflict check runs on every binding path
+_CM_CALL_OLD = "        check_middlewares(self.middlewares, src_provides_map)\n"
+_CM_COND = {'C01': 'R01.a', 'C04': 'R04.a'}
+T('pkgA_twin_conflict_check_reraising_handler', ['C01', 'C04'],
+  (R, _CM_CALL_OLD, "        try:\n            check_middlewares(self.middlewares, src_provides_map)\n        except NameError:\n            raise\n"))
+T('pkgA_twin_conflict_check_after_the_provided_set', ['C01', 'C04'],
+  (R, _CM_CALL_OLD + "        provided = set.union(*src_provides_map.values())\n",
+      "        provided = set.union(*src_provides_map.values())\n" + _CM_CALL_OLD))
+B('pkgA_conflict_check_only_for_a_non_empty_stack', ['C01', 'C04'], _CM_COND,
+  (R, _CM_CALL_OLD, "        if len(self.middlewares) > 0:\n            check_middlewares(self.middlewares, src_provides_map)\n"))
+B('pkgA_conflict_check_skipped_for_the_fallback_route', ['C01', 'C04'], _CM_COND,
+  (R, _CM_CALL_OLD, "        if not isinstance(unbound_route, NullRoute):\n            check_middlewares(self.middlewares, src_provides_map)\n"))
+B('pkgA_conflict_check_skipped_when_rebinding', ['C01', 'C04'], _CM_COND,
+  (R, _CM_CALL_OLD, "        if route is unbound_route:\n            check_middlewares(self.middlewares, src_provides_map)\n"))
+B('pkgA_conflict_check_error_swallowed', ['C04'], 'R04.a',
+  (R, _CM_CALL_OLD, "        try:\n            check_middlewares(self.middlewares, src_provides_map)\n        except NameError:\n            pass\n"))
